@@ -82,6 +82,13 @@ class Tr:
             ts = [t for _, t in args]; vs = [v for v, _ in args]
             if f in ("minimum", "maximum") and ts == ["Z", "Z"]: return (f"(Z.{f[:3]} {vs[0]} {vs[1]})", "Z")
             if f == "clip" and ts == ["Z", "Z", "Z"]: return (f"(Z.min (Z.max {vs[0]} {vs[1]}) {vs[2]})", "Z")
+            if f in ("mod", "remainder") and ts == ["Z", "Z"]: return (f"({vs[0]} mod {vs[1]})", "Z")
+            if f == "floor_divide" and ts == ["Z", "Z"]: return (f"({vs[0]} / {vs[1]})", "Z")
+            if f in ("add", "subtract", "multiply") and ts == ["Z", "Z"]: return (f"({vs[0]} {dict(add='+', subtract='-', multiply='*')[f]} {vs[1]})", "Z")
+            if f == "negative" and ts == ["Z"]: return (f"(- {vs[0]})", "Z")
+            if f in ("logical_and", "bitwise_and") and ts == ["bool", "bool"]: return (f"({vs[0]} && {vs[1]})", "bool")
+            if f in ("logical_or", "bitwise_or") and ts == ["bool", "bool"]: return (f"({vs[0]} || {vs[1]})", "bool")
+            if f in ("logical_not", "invert") and ts == ["bool"]: return (f"(negb {vs[0]})", "bool")
             if f == "sign" and ts == ["Z"]: return (f"(Z.sgn {vs[0]})", "Z")
             if f in ("abs", "absolute") and ts == ["Z"]: return (f"(Z.abs {vs[0]})", "Z")
             if f == "where" and ts == ["bool", "Z", "Z"]: return (f"(if {vs[0]} then {vs[1]} else {vs[2]})", "Z")
